@@ -330,7 +330,7 @@ func (cl *CollectorWorker) sendExpiredTracesInCache(ctx context.Context, now tim
 		attribute.Int64("take_expired_traces_duration_ms", dur.Milliseconds()),
 	)
 
-	spanLimit := uint32(cl.parent.Config.GetTracesConfig().SpanLimit)
+	spanLimit := cl.parent.Config.GetTracesConfig().SpanLimit
 
 	var totalSpansSent int64
 
@@ -346,7 +346,7 @@ func (cl *CollectorWorker) sendExpiredTracesInCache(ctx context.Context, now tim
 			}
 			cl.parent.send(ctx, tr)
 		} else {
-			if spanLimit > 0 && t.DescendantCount() > spanLimit {
+			if spanLimit > 0 && uint(t.DescendantCount()) > spanLimit {
 				tr, err := cl.makeDecision(ctx, t, TraceSendSpanLimit)
 				if err != nil {
 					sendExpiredTraceSpan.End()
